@@ -169,6 +169,86 @@ use std::collections::HashMap;
     r@ == mm_spec(collect_spec(*self, contents@, false).0),
 //@end
 
+//@fn id=build_remove_marker_all file=code/remover.rs name=build_remove_marker_all in="impl Remover" props=C01,C17
+//@ret r
+//@requires
+    all_el_wf(contents@),
+    exists|lo: int, hi: int| wf_forest(collect_spec(*self, contents@, true).0, lo, hi),
+    exists|lo: int, hi: int| wf_forest(collect_spec(*self, contents@, true).1, lo, hi),
+    2 * forest_size(collect_spec(*self, contents@, true).0) < usize::MAX,
+    2 * forest_size(collect_spec(*self, contents@, true).1) < usize::MAX,
+//@ensures label=list_all_is_spec props=C17
+    r@ == merge_all_final(mm_spec(collect_spec(*self, contents@, true).0), mm_spec(collect_spec(*self, contents@, true).1)),
+//@extendmap
+//@tupleclone "v.clone()" arity=2
+//@lettype merged_ranges type="Vec<(RemoveMarker, bool)>"
+//@loop 1 iter=it
+//@invariant
+    it.seq() == __rs,
+    ranges_pending@ == __ps,
+    0 <= range_cursor <= __ps.len(),
+    (merged_ranges@, range_cursor as int) == merge_all(__rs, __ps, it.index@),
+//@loop 2
+//@invariant
+    ranges_pending@ == __ps,
+    0 <= __c0 <= range_cursor <= __ps.len(),
+    __m0 + consume_pending(range, __ps, __c0).0 == merged_ranges@ + consume_pending(range, __ps, range_cursor as int).0,
+    consume_pending(range, __ps, __c0).1 == consume_pending(range, __ps, range_cursor as int).1,
+//@loop-ensures
+    ranges_pending@ == __ps,
+    0 <= range_cursor <= __ps.len(),
+    (merged_ranges@, range_cursor as int) == (__m0 + consume_pending(range, __ps, __c0).0, consume_pending(range, __ps, __c0).1),
+//@decreases
+    __ps.len() - range_cursor
+//@loop 3 iter=it3
+//@invariant
+    ranges_pending@ == __ps,
+    0 <= range_cursor < __ps.len(),
+    it3.seq() == __ps.subrange(range_cursor as int, __ps.len() as int).as_ref(),
+    merged_ranges@ == __m1 + pending_tail(__ps, range_cursor as int).take(it3.index@),
+//@at body-start
+    hide(collect_spec); hide(mm_spec); hide(wf_forest); hide(forest_size); hide(all_el_wf); hide(mm_post);
+//@at before "let mut merged_ranges"
+    let ghost __rs = ranges@;
+    let ghost __ps = ranges_pending@;
+//@at loop 1 start
+    let ghost __m0 = merged_ranges@;
+    let ghost __c0 = range_cursor as int;
+    proof { lemma_consume_pending_bounds(range, __ps, __c0); }
+//@at loop 2 start
+    let ghost __mm = merged_ranges@;
+    let ghost __cc = range_cursor as int;
+//@at loop 2 end
+    proof {
+        let cp = consume_pending(range, __ps, __cc);
+        let rest = consume_pending(range, __ps, __cc + 1);
+        assert(merged_ranges@ + rest.0 =~= __mm + cp.0);
+    }
+//@at after-loop 2
+    proof {
+        assert(consume_pending(range, __ps, range_cursor as int).0 =~= Seq::<(RemoveMarker, bool)>::empty());
+        assert(merged_ranges@ =~= __m0 + consume_pending(range, __ps, __c0).0);
+    }
+//@at loop 1 end
+    proof {
+        let n = it.index@;
+        assert(__rs[n] == (range, idx));
+    }
+//@at before "if range_cursor < ranges_pending.len() {"
+    let ghost __m1 = merged_ranges@;
+    proof { assert(pending_tail(__ps, range_cursor as int).take(0) =~= Seq::<(RemoveMarker, bool)>::empty()); }
+//@at loop 3 end
+    proof {
+        let pt = pending_tail(__ps, range_cursor as int);
+        assert(pt.take(it3.index@ + 1) =~= pt.take(it3.index@).push(pt[it3.index@]));
+    }
+//@at after-loop 3
+    proof {
+        let pt = pending_tail(__ps, range_cursor as int);
+        assert(pt.take(pt.len() as int) =~= pt);
+    }
+//@end
+
 //@fn id=remove file=code/remover.rs name=remove in="impl Remover" props=C01,C02,C03,C04
 //@ret r
 //@requires
